@@ -5,7 +5,8 @@ import vlib
 TARGETS = ["Base/Corr.vo", "C10/Gen.vo", "C10/GenAcc.vo", "C10/Model.vo", "C10/ModelSparse.vo", "C10/Corr.vo", "C10/Spec.vo",
            "C10/ProofsIndex.vo", "C10/ProofsViews.vo", "C10/ProofsIter.vo", "C10/ProofsIterSkip.vo", "C10/ProofsOps.vo",
            "C10/ProofsTip.vo", "C10/ProofsTipGen.vo", "C10/ProofsOpsView.vo", "C10/ProofsSparse.vo", "C10/ProofsSparseT.vo",
-           "C10/ProofsAcc.vo", "C10/ProofsPermView.vo", "C10/ProofsTipAll.vo", "C10/ProofsTipView.vo", "C10/Props.vo"]
+           "C10/ProofsAcc.vo", "C10/ProofsPermView.vo", "C10/ProofsTipAll.vo", "C10/ProofsTipView.vo",
+           "C10/ModelBin.vo", "C10/CorrBin.vo", "C10/ProofsBinView.vo", "C10/ProofsJoint.vo", "C10/Props.vo"]
 PROPS = ["C10/Props.v"]
 PARTIAL = (
     "The integer kernels (index, ij, SLICE/Slice/ConstSlice, T/MagicT, Dims, dense iterator Ok/next/Index) are re-translated "
@@ -24,11 +25,17 @@ PARTIAL = (
     "deep-copy is a theorem for every read-only/arithmetic operation of the model, for the whole-matrix writes, and now "
     "for the in-place permuting writes (Swap, SwapRows/SwapColumns, PermuteRows/PermuteColumns/SymmetricPermutation, MdotM "
     "with the view as receiver in both schedules): same outcome, view = copy's elements, frame, heap = copy written back; "
-    "the product needs a non-empty receiver (storageLocation of an empty copy panics) and operands in other storages "
-    "(view.MdotM(view, view) and element-wise ops whose operand shares the receiver's storage are decided by replay). "
-    "Not modelled: Map/MapSet/Reduce callbacks, the joint iterators, element types' rounding (values are small integers). "
+    "the product needs non-empty shapes (storageLocation of an empty copy panics). Round 5: receiver AND operands views of "
+    "ONE storage (ModelBin.v, second replay stream): element-wise operations and MdotM in both schedules are proved to be the "
+    "fill of the receiver with the closed form of the elements read before the call whenever each operand is the receiver "
+    "itself or unreachable by writes through the receiver (other storage, or other cells of the same storage), hence equal "
+    "to the call on independent deep copies, with frame; the excluded product case (left factor = receiver, right factor a "
+    "sibling window: wrong schedule) is the proposed finding F-MDOTM-SIBLING (= C08's F-MDOTM-T); shifted/transposed OVERLAPS "
+    "of the receiver with an operand are receiver aliasing (C08) and only replayed. The dense joint iterator is modelled "
+    "step by step and proved to depend on shapes and elements only. "
+    "Not modelled: Map/MapSet/Reduce callbacks, element types' rounding (values are small integers). "
     "Sparse T() is proved for whole matrices of every shape and content; sparse views are covered by witness refutations. "
-    "Known findings (F-ASVEC, F-SPITER, F-SPT, F-SPT-REF, F-IJ-T, proposed F-TIP-VIEW) are excluded from the universally "
+    "Known findings (F-ASVEC, F-SPITER, F-SPT, F-SPT-REF, F-IJ-T, proposed F-TIP-VIEW, F-MDOTM-SIBLING) are excluded from the universally "
     "quantified statements and refuted by witness lemmas instead.")
 
 
@@ -151,6 +158,34 @@ def corr(ctx, binary, n, corpus):
             bad.append(cases[k * meta["per_shard"] + i])
     ctx.log("correspondence: %d cases in %d shards, %d mismatching (%.0fs coqc)" % (
         len(cases), len(res), len(bad), sum(r["secs"] for r in res)))
+    # second stream: binary operations on several views of one parent / joint iterator (CorrBin.mismB)
+    mp = os.path.join(ctx.dir, "bcases.meta.json")
+    if not os.path.exists(mp):
+        ctx.violation({"obligation": "C10 harness run (binary-operation stream)"}, False,
+                      "the harness wrote no binary-operation cases")
+        return bad
+    metab = json.load(open(mp))
+    vlib.merge_meta(ctx, metab)
+    shardsb = sorted(glob.glob(os.path.join(ctx.dir, "bcases_*.v")), key=lambda p: int(p.rsplit("_", 1)[1][:-2]))
+    resb = vlib.eval_shards(shardsb)
+    ctx.oblige(len(resb), sum(1 for r in resb if r["ok"]))
+    bcases = vlib.load_jsonl(os.path.join(ctx.dir, "bcases.jsonl"))
+    nb = 0
+    for k, r in enumerate(resb):
+        if r["ok"]:
+            continue
+        if r["mism"] is None:
+            ctx.violation({"obligation": "correspondence shard " + os.path.basename(r["path"]),
+                           "coqc_error": r["error"]}, False, "correspondence shard did not evaluate")
+            continue
+        for i in r["mism"]:
+            bc = bcases[k * metab["per_shard"] + i]
+            bc.pop("obs", None)
+            bad.append({"type": bc["type"], "rows": bc["rows"], "cols": bc["cols"], "vals": bc["vals"], "views": [],
+                        "op": {"name": "Bin" + bc["op"]}, "bin": bc})
+            nb += 1
+    ctx.log("correspondence (binary operations on views of one parent, joint iterator): %d cases in %d shards, "
+            "%d mismatching (%.0fs coqc)" % (len(bcases), len(resb), nb, sum(r["secs"] for r in resb)))
     return bad
 
 
@@ -182,6 +217,11 @@ def corpus_cases():
 
 def describe(f):
     c = f["case"]
+    if c.get("bin"):
+        b = c["bin"]
+        return "%s on %s %dx%d parent r=%s a=%s b=%s: %s" % (f["site"], b.get("type"), b.get("rows"), b.get("cols"),
+                                                            json.dumps(b.get("r")), json.dumps(b.get("a")),
+                                                            json.dumps(b.get("b")), f["what"][:300])
     return "%s on %s %dx%d views=%s op=%s: %s" % (f["site"], c.get("type"), c.get("rows"), c.get("cols"),
                                                    json.dumps(c.get("views")), json.dumps(c.get("op")), f["what"][:300])
 
